@@ -172,8 +172,18 @@ def h_datasets(ctx):
     times = [INSTANTS[i] for i in sub]
     via = ctx.params["via"]
     inputs = build(times, seed)
-    ref = RD.RefData(inputs)
+    # -d / -tod keeping the LATEST initialisation time (never a prefix of the time list): calendar buckets are those of the kept times
+    kw = {}
+    filt = ctx.choose("filter", (None, "-d", "-tod"), free=True) if (len(sub) >= 2 and via == "mem") else None
+    if filt == "-d":
+        kw["dates"] = [cal.unixtime_to_date(max(times))]
+    elif filt == "-tod":
+        kw["tods"] = [int((max(times) % 86400) // 3600)]
+    ref = RD.RefData(inputs, **kw)
+    if filt and len(ref.T) < len(times):
+        ctx.flag("filtered")
     ctx.note("times", [cal.fmt_time(t, "time") for t in times])
+    ctx.note("filter", kw)
     if via == "cli":
         d = os.path.join(H.scratch(), "c11cli")
         os.makedirs(d, exist_ok=True)
@@ -225,7 +235,7 @@ def h_datasets(ctx):
         ctx.outcome("n=%d" % len(sub))
         ctx.nontrivial(len(sub) > 1)
         return
-    kind, data, site, out = CD.make_data(inputs)
+    kind, data, site, out = CD.make_data(inputs, **kw)
     if kind != "ok":
         ctx.fail("data-%s:%s" % (kind, site), stdout=out[-200:])
         return
@@ -260,7 +270,7 @@ def h_datasets(ctx):
             if kind3 == "ok":
                 pr = RD.impl_rows(pooled)
                 ctx.require(sorted(seen) == sorted(pr), "partition:%s" % ax, input=i, union_of_slices=len(seen), pooled=len(pr))
-    ctx.observe((tuple(sub), tuple(sig)))
+    ctx.observe((tuple(sub), filt, tuple(sig)))
     ctx.outcome("n=%d" % len(sub))
     tod = [cal.bucket_timeofday(t) for t in sorted(times)]
     if len(tod) >= 3 and tod[0] == tod[2] != tod[1]:
@@ -290,10 +300,10 @@ def run(tier, only=None):
         t0 = time.time()
         st = explore.explore(h, mode="full", params=params, repo_root=core.REPO)
         bound = {"conversions": "every day of every year 1900..2100 (one execution per year)", "buckets": "every day of every year 1970..2100 x 3 times of day (one execution per year)",
-                 "leadtimeday": "every lead time 0..72 h step 1/4 h", "datasets": "every subset of size <= %d of 16 boundary instants x 15 axes" % (3 if tier == "quick" else 4),
+                 "leadtimeday": "every lead time 0..72 h step 1/4 h", "datasets": "every subset of size <= %d of 16 boundary instants x {no filter, -d, -tod of the latest instant} x 15 axes" % (3 if tier == "quick" else 4),
                  "datasets-cli": "every subset of size <= %d of 16 boundary instants x 15 axes through the driver" % (2 if tier == "quick" else 3)}[name]
         subs.append(core.Sub.from_e1(name, st, bound=bound, rule="non-trivial = more than one init time / every year", min_outcomes=1,
-                                     required_flags=("cyclic-recurrence",) if name == "datasets" else (), wall=time.time() - t0))
+                                     required_flags=("cyclic-recurrence", "filtered") if name == "datasets" else (), wall=time.time() - t0))
     return subs
 
 
